@@ -138,6 +138,20 @@ impl Prop for C17 {
       out.push(Case { id: format!("nested;set-comprehension;k={}", k0), cell: "nested;from-comprehension".into(), input: json!({"mode": "nested", "form": "set-comprehension", "k": k0}) });
       if i == 0 { for hdr in ["kinds-in-header", "kinds-in-spec-only"] { out.push(Case { id: format!("nested;wrong-kind;{}", hdr), cell: "nested;wrong-kind-in-comprehension".into(), input: json!({"mode": "nested", "form": "wrong-kind", "hdr": hdr, "k": 0}) }); } }
     }
+    // payloads other than numbers: long and non-ASCII text carried through several states; the same state name with
+    // different numbers of fields, the shorter arm first
+    for (i, (ch, n)) in [("a", 40usize), ("é", 40), ("α", 600), ("a", 1500), ("日本", 700), ("🙂", 300)].iter().enumerate() {
+      out.push(Case { id: format!("payload;text;{}", i), cell: "payload;text".into(), input: json!({"mode": "payload", "form": "echo", "ch": ch, "n": n}) });
+      if *n <= 700 { out.push(Case { id: format!("payload;build;{}", i), cell: "payload;text".into(), input: json!({"mode": "payload", "form": "build", "ch": ch, "n": n}) }); }
+    }
+    for (i, (src, want)) in [
+      ("#Norm(n<u64>) -> :Point(n, n + 1u64)\n  :Point(x) -> :Done(x)\n  :Point(x, y) -> :Done(x + y)\n  :Done(out) => out.\n\n#Norm(3u64)", 7u64),
+      ("#Norm(n<u64>) -> :Point(n)\n  :Point(x, y) -> :Done(x + y)\n  :Point(x) -> :Point(x, x + 1u64)\n  :Done(out) => out.\n\n#Norm(3u64)", 7),
+      ("#Sum(n<u64>) -> :Acc(n)\n  :Acc(n) -> :Acc(n, 0u64)\n  :Acc(0u64, total) -> :Done(total)\n  :Acc(n, total) -> :Acc(n - 1u64, total + n)\n  :Done(t) => t.\n\n#Sum(4u64)", 10),
+      ("#Sum(n<u64>) -> :Seed(n)\n  :Seed(n) -> :Acc(n, 0u64)\n  :Acc(0u64, total) -> :Done(total)\n  :Acc(n, total) -> :Acc(n - 1u64, total + n)\n  :Done(t) => t.\n\n#Sum(4u64)", 10),
+    ].iter().enumerate() {
+      out.push(Case { id: format!("arity-overload;{}", i), cell: "arity-overload".into(), input: json!({"mode": "fixed", "src": src, "want": want}) });
+    }
     // array state patterns whose variables are bound again in a later step (prefix, suffix and both ends)
     for (k, (a, b)) in [(vec![5u64, 3, 8], vec![1u64, 9]), (vec![7], vec![7]), (vec![1, 5, 9], vec![2, 4, 12]), (vec![2, 2], vec![3, 1, 6, 6]), (vec![0, 4], vec![9, 9, 9])].iter().enumerate() {
       for shape in ["last", "first", "span"] { out.push(Case { id: format!("array;rebind;shape={};k={}", shape, k), cell: format!("array;rebind;{}", shape), input: json!({"mode": "array2", "a": a, "b": b, "shape": shape}) }); }
@@ -232,6 +246,27 @@ impl Prop for C17 {
           (Ev::Ok(v), None) => Outcome::violated("illformed-accepted", format!("{}\nelements of kind u8 were accepted for n<u64>: {}", src, v.show())),
           (_, None) => Outcome::held().tag("rejected"),
         }
+      }
+      "payload" => {
+        let ch = case.input["ch"].as_str().unwrap(); let n = case.input["n"].as_u64().unwrap() as usize;
+        let text = ch.repeat(n);
+        let src = if case.input["form"].as_str().unwrap() == "echo" {
+          format!("#Echo(s<string>) => <string>\n  ├ :Hold(s<string>)\n  ├ :Pass(s<string>)\n  └ :Done(s<string>).\n\n#Echo(s<string>) -> :Hold(s)\n  :Hold(s) -> :Pass(s)\n  :Pass(s) -> :Done(s)\n  :Done(s) => s.\n\n#Echo(\"{}\")", text)
+        } else {
+          format!("#Repeat(n<u64>) => <string>\n  ├ :Build(n<u64>, acc<string>)\n  └ :Done(out<string>).\n\n#Repeat(n<u64>) -> :Build(n, \"\")\n  :Build(0u64, acc) -> :Done(acc)\n  :Build(n, acc) -> :Build(n - 1u64, acc + \"{}\")\n  :Done(out) => out.\n\n#Repeat({}u64)", ch, n)
+        };
+        let (res, _) = traced(&src, Some(100000));
+        let shown = |s: &str| s.chars().take(120).collect::<String>();
+        match &res {
+          Ev::Ok(CVal::S(_, Sc::S(got))) => if *got == text { Outcome::held() } else { Outcome::violated("wrong-result", format!("{}\nreturned a string of {} chars, expected {} x {:?}", shown(&src), got.chars().count(), n, ch)) },
+          Ev::Panic(p) => Outcome::violated("panic-escaped", p.clone()),
+          other => Outcome::violated("wrong-result", format!("{}\nreturned {} expected {} x {:?}", shown(&src), other.show().chars().take(200).collect::<String>(), n, ch)),
+        }
+      }
+      "fixed" => {
+        let src = case.input["src"].as_str().unwrap(); let want = case.input["want"].as_u64().unwrap();
+        let (res, _) = traced(src, Some(10000));
+        match &res { Ev::Ok(CVal::S(_, Sc::U(g))) if *g as u64 == want => Outcome::held(), Ev::Panic(p) => Outcome::violated("panic-escaped", p.clone()), other => Outcome::violated("wrong-result", format!("{}\nreturned {} expected {}", src, other.show(), want)) }
       }
       "array2" => {
         let a: Vec<u64> = serde_json::from_value(case.input["a"].clone()).unwrap();
